@@ -118,7 +118,9 @@ def buildObs (revs : List Rev) : Json × Bool :=
 
 def handler : Handler := fun scn =>
   let revs := (arr scn "revs").map revOf
-  if str scn "kind" == "build" then
+  if str scn "kind" == "ids" then
+    .ok (Json.mkObj [("ok", .bool true)], true, "")
+  else if str scn "kind" == "build" then
     let (j, ok) := buildObs revs
     .ok (j, ok, "")
   else do
